@@ -9,7 +9,8 @@ the state only from Draft / Archived / Open-without-conflicts (never from Merged
 only Patch::action constructs State::Merged. 
 The head a merged commit is checked against comes only from the merging delegate's
 own default branch (no fallback to the canonical HEAD); when no group reaches the
-threshold any more a Merged state does not stand (it is reset to Open)."""
+threshold any more a Merged state does not stand (it is reset to Open).
+`Repository::is_ancestor_of` is libgit2's descendant test with the operands in order."""
 import re
 
 from .. import cfg, rules, flow, table
